@@ -465,14 +465,23 @@ def thin_domain(model, Kt, thr, dthr):
     mL = min(float(np.linalg.norm(ed["B"] - ed["A"])) for ed in edges)
     if mL < 1.5 * dthr:
         return "below-distance-threshold"
-    if THIN_MARGIN * max(ed["tv"] for ed in edges) > mL:
+    if THIN_MARGIN * max(vertex_tolerances(edges)) > mL:
         return "ill-conditioned"
     return None
 
 
+def vertex_tolerances(edges):
+    """Per vertex j: how far from it a path node may be that is 'at' the vertex - the position tolerance of the edge
+    that leaves it and the reach of the edge that arrives (a half-plane edge above / around RADIUS_THRESHOLD may
+    arrive on the vertical through its first end point, |x_B - x_A| away)."""
+    k = len(edges)
+    return [max(edges[j]["tv"], edges[j - 1]["allow"] if edges[j - 1]["cls"] == "A" else edges[j - 1]["chord_allow"])
+            for j in range(k)]
+
+
 def visit_order_violations(model, Kt, verts, codes, thr, site):
-    """The nodes of the path (end points of its pieces), each matched with the vertex it coincides with (within the
-    position tolerance of the two edges at that vertex; under thin_domain at most one vertex qualifies), visit
+    """The nodes of the path (end points of its pieces), each matched with the vertex it coincides with (within
+    vertex_tolerances; under thin_domain at most one vertex qualifies), visit
     the vertices in the cyclic order v0, v1, ..., v(k-1), v0: consecutive repetitions count once, nodes that are at
     no vertex (joints between the pieces of one arc, the corner of a half-plane vertical substitute) are in transit."""
     try:
@@ -481,7 +490,7 @@ def visit_order_violations(model, Kt, verts, codes, thr, site):
         return [V("%s/path-malformed" % site, str(e))]
     Vs, edges = edge_table(model, Kt, thr, True)
     k = len(Vs)
-    tvv = [max(edges[j - 1]["tv"], edges[j]["tv"]) for j in range(k)]
+    tvv = vertex_tolerances(edges)
     seq = []
     for p in pcs:
         hits = [j for j in range(k) if np.linalg.norm(p.end - Vs[j]) <= tvv[j]]
@@ -1756,10 +1765,12 @@ def run(ctx):
     ctx.rule = ("every drawing call is made on a fresh HyperbolicDrawing/ProjectiveDrawing (one figure per case, calls "
                 "made one at a time, new artist located by diffing the artists of all open axes); cases = model x drawing "
                 "transform x all ordered vertex tuples / point pairs / centre-reference pairs of the lattices; composites of 3..4 members drawn by "
-                "one call for every straight/arc pattern; projective polygons by every listed scaling of their homogeneous representatives; a case is "
+                "one call for every straight/arc pattern; projective polygons by every listed scaling of their homogeneous representatives; thin polygons "
+                "(one or two very short edges) at every listed position / direction / rotation / orientation; transform histories = every op sequence "
+                "up to the stated length over constructor transform / set_transform / add_transform / precompose_transform with non-commuting maps; a case is "
                 "non-trivial when at least one drawn object has a curved (arc) edge or a Klein/projective vertex list")
     ctx.assume("objects are 2-dimensional with float coordinates; polygon vertices pairwise distinct, not all collinear, "
-               "at Klein radius <= 0.9 before the drawing transform (<= 0.97 after), pairwise >= 0.05 apart in Klein coordinates "
+               "at Klein radius <= 0.9 before the drawing transform (<= 0.97 after), pairwise >= 0.05 apart in Klein coordinates - except in the section polygons-thin - "
                "(the library's DISTANCE_THRESHOLD for chaining arcs is 1e-4 in model coordinates, and the ideal end points of a "
                "segment of Klein length d carry a relative error ~1e-8/d)")
     ctx.assume("composites drawn by one call: members pairwise different (as unordered end point pairs / vertex sets), each member in the "
@@ -1974,25 +1985,27 @@ def run(ctx):
                    (not dg.is_infinity(transformed(M, x)) and dg.angle_from_infinity(transformed(M, x)) >= 0.2)]
             items += [{"k": x, "shape": [], "ideal": True} for x in idl] + [{"k": idl, "shape": [len(idl)], "ideal": True}]
             hpts.append(dict(base, items=items))
+            polys = []
             for (i, j) in ((0, 1), (4, 2), (7, 5)):
                 rest = [x for x in range(len(HP)) if x not in (i, j)]
                 tails = [[HP[x]] for x in rest] + [[HP[rest[0]], HP[rest[3]]], [HP[rest[4]], HP[rest[1]]],
                                                      [HP[rest[2]], HP[rest[5]], HP[rest[0]]]]
-                tails = [tl for tl in tails if nondegenerate([HP[i], HP[j]] + tl)]
-                hpoly.append(dict(base, head=[HP[i], HP[j]], tails=tails))
-            for a in (HP[1], HP[6]):
-                hgeo.append(dict(base, kind="segment", a=a, bs=[b for b in HP if b != a]))
-            for a in (dirs[0], dirs[3]):
-                hgeo.append(dict(base, kind="geodesic", a=a, bs=[b for b in dirs if b != a]))
+                polys += [[HP[i], HP[j]] + tl for tl in tails if nondegenerate([HP[i], HP[j]] + tl)]
+            hpoly.append(dict(base, head=[], tails=polys))            # one figure per history: whole vertex lists as 'tails'
+            n = len(hgeo) // 2
+            a = HP[n % len(HP)]
+            hgeo.append(dict(base, kind="segment", a=a, bs=[b for b in HP if b != a]))
+            a = dirs[n % len(dirs)]
+            hgeo.append(dict(base, kind="geodesic", a=a, bs=[b for b in dirs if b != a]))
     hdom = {"models": MODELS, "ops": HIST_OPS, "transforms": HIST_PAIRS["hyperbolic"],
             "histories": "all %d op sequences of length 0..%d ('ctor' = the constructor's transform, only first), the i-th op taking the "
                          "rotation / the loxodromic alternately, both assignments" % (len(hh), depth), "points": HP}
     product("history-points", "checks.c19:case_points", hpts,
             domains=dict(hdom, objects="every point singly, composites of shape (8,) and (3,2), ideal points singly and as one composite"), chunk=4)
     product("history-polygons", "checks.c19:case_polygons", hpoly,
-            domains=dict(hdom, objects="3 heads x (all third vertices, two quadrilaterals, one pentagon)"), chunk=2)
+            domains=dict(hdom, objects="3 first edges x (all third vertices, two quadrilaterals, one pentagon)"), chunk=2)
     product("history-geodesics", "checks.c19:case_geodesics", hgeo,
-            domains=dict(hdom, objects="segments from 2 points to every other point; geodesics from 2 ideal directions to every other"), chunk=4)
+            domains=dict(hdom, objects="segments from one point (cycling through the points with the history) to every other point; geodesics from one ideal direction (cycling) to every other"), chunk=4)
     ph = histories(HIST_PAIRS["projective"], depth)
     hpr = []
     for chart in (0, 1, 2):
